@@ -53,6 +53,23 @@ Proof.
   intros [H|H]; [exists (c_id y), j; auto|auto].
 Qed.
 
+Lemma drop_outs_In : forall b l o, In o (drop_outs b l) -> In o l \/ o = OKeyErr.
+Proof.
+  intros b l o. destruct l as [|x r]; cbn [drop_outs]; [intros []|].
+  intros [H|H]; [destruct b; [left; left; exact H|right; auto]|].
+  apply in_map_iff in H. destruct H as (y&Hy&_). right; auto.
+Qed.
+
+Lemma evdone_out : forall s ser o, In o (snd (run_event (EvDone ser) s)) ->
+  (exists c j, o = OReleased c j /\ getjob (s_jobs s) ser = Some j) \/ o = OKeyErr.
+Proof.
+  intros s ser o. cbn [run_event]. destruct (release ser (s_jobs s) (s_conns s)) as [cs o'] eqn:ER.
+  pose proof (release_out ser (s_jobs s) (s_conns s) o) as R. rewrite ER in R. cbn [snd] in R.
+  destruct (getjob (s_jobs s) ser) as [j|] eqn:Ej; [|cbn [snd]; intro H; left; exact (R H)].
+  destruct (j_drop j && has_waiter ser (s_conns s)); cbn [snd]; intro H; [|left; exact (R H)].
+  apply drop_outs_In in H. destruct H as [H|H]; [left; exact (R H)|right; exact H].
+Qed.
+
 Lemma run_event_out : forall e s o, Inv s [] [] -> In o (snd (run_event e s)) -> good_delivery o.
 Proof.
   intros e s o I. destruct e as [c|c|ser]; cbn [run_event].
@@ -64,25 +81,24 @@ Proof.
       split; [|exact He]. unfold is_done in D. rewrite Ej in D. exact D.
   - destruct (c_st (get_conn (s_conns s) c)) as [|chs mb|w|]; unfold die; cbn [snd];
       try (intros [H|[]]; subst o; exact Logic.I); intros [].
-  - destruct (release ser (s_jobs s) (s_conns s)) as [cs o'] eqn:ER. cbn [snd]. intro H.
-    pose proof (release_out ser (s_jobs s) (s_conns s) o) as R. rewrite ER in R. destruct (R H) as (c&j&Ho&_). subst o. exact Logic.I.
+  - intro H. destruct (evdone_out s ser o H) as [(c&j&Ho&_)|Ho]; subst o; exact Logic.I.
 Qed.
 
-Lemma run_events_out : forall es s o, Inv s [] [] -> In o (snd (run_events es s)) -> good_delivery o.
+Lemma run_events_out : forall es s o, Aux s -> Inv s [] [] -> In o (snd (run_events es s)) -> good_delivery o.
 Proof.
-  induction es as [|e r IH]; intros s o I; cbn [run_events]; [intros []|].
-  pose proof (run_event_inv e s I) as I1. pose proof (run_event_out e s o I) as O1.
+  induction es as [|e r IH]; intros s o A I; cbn [run_events]; [intros []|].
+  pose proof (run_event_inv e s A I) as I1. pose proof (run_event_out e s o I) as O1. pose proof (run_event_jobs e s) as J1.
   destruct (run_event e s) as [s1 o1]. cbn [fst snd] in *.
-  specialize (IH s1 o I1). destruct (run_events r s1) as [s2 o2]. cbn [snd] in *.
+  specialize (IH s1 o (aux_same _ _ J1 A) I1). destruct (run_events r s1) as [s2 o2]. cbn [snd] in *.
   intro H. apply in_app_or in H. destruct H; auto.
 Qed.
 
-Lemma step_out : forall s o x, Inv s [] [] -> In x (snd (step s o)) -> good_delivery x.
+Lemma step_out : forall s o x, Aux s -> Inv s [] [] -> In x (snd (step s o)) -> good_delivery x.
 Proof.
-  intros s o x I. destruct o as [ch prio name tmo|c chs| |c i res e|c js|dt|c|k|c i|i|i v|]; cbn [step].
+  intros s o x A I. destruct o as [ch prio name tmo|c chs| |c i res e|c js|dt|c|k|c i|i|i v| |dt|js|]; cbn [step].
   - destruct (push ch prio name tmo s). cbn [snd]. intros [H|[]]; subst; exact Logic.I.
   - destruct (is_idle c s); [apply pop_out; exact I|]. cbn [snd]. intros [H|[]]; subst; exact Logic.I.
-  - apply run_events_out. eapply inv_same; eauto.
+  - apply run_events_out; [exact A|]. eapply inv_same; eauto.
   - destruct (is_idle c s); [destruct (id_lookup (s_ids s) i)|]; cbn [snd]; intros [H|[]]; subst; exact Logic.I.
   - destruct (is_idle c s); cbn [snd]; intros [H|[]]; subst; exact Logic.I.
   - cbn [snd]. intros [H|[]]; subst; exact Logic.I.
@@ -93,12 +109,15 @@ Proof.
   - cbn [snd]. intros [H|[]]; subst; exact Logic.I.
   - destruct (id_lookup (s_ids s) i); cbn [snd]; intros [H|[]]; subst; exact Logic.I.
   - cbn [snd]. intros [H|[]]; subst; exact Logic.I.
+  - cbn [snd]. intros [H|[]]; subst; exact Logic.I.
+  - cbn [snd]. intros [H|[]]; subst; exact Logic.I.
+  - cbn [snd]. intros [H|[]]; subst; exact Logic.I.
 Qed.
 
-Lemma delivered_ok : forall h o c chs j,
+Lemma delivered_ok : forall h o c chs j, nodrop h = true ->
   In (ODeliver c chs j) (snd (step (run h init) o)) ->
   j_done j = false /\ (chs = [] \/ mem (j_chan j) chs = true).
-Proof. intros h o c chs j H. apply (step_out _ _ _ (reachable_inv h) H). Qed.
+Proof. intros h o c chs j ND H. apply (step_out _ _ _ (reachable_aux h ND) (reachable_inv h ND) H). Qed.
 
 (* ------------------------------------------------------------------ finality *)
 
@@ -141,46 +160,38 @@ Proof.
   destruct (s_now s <? fst x); [apply fin_le_refl|]. eapply fin_le_trans; [apply mark_fin_le|apply IH].
 Qed.
 
-Lemma deliver_jobs : forall c chs x s, s_jobs (fst (deliver c chs x s)) = s_jobs s.
-Proof. intros. unfold deliver. destruct (getjob (s_jobs s) x); reflexivity. Qed.
-
-Lemma pop_jobs : forall c chs s, s_jobs (fst (pop_or_block c chs s)) = s_jobs s.
+Lemma setjob_fin_le : forall js ser f,
+  (forall j, j_serial (f j) = j_serial j /\ j_done (f j) = j_done j /\ j_err (f j) = j_err j /\ j_res (f j) = j_res j) ->
+  fin_le js (setjob ser f js).
 Proof.
-  intros. unfold pop_or_block. cbv zeta. destruct (heads _ _) as [x|]; [|reflexivity].
-  destruct (getjob _ _); [|reflexivity]. rewrite deliver_jobs. reflexivity.
+  intros js ser f Hf x j E D. rewrite getjob_setjob by (intros j0 H0; rewrite (proj1 (Hf j0)); exact H0).
+  destruct (x =? ser) eqn:Ex.
+  - apply N.eqb_eq in Ex. subst x. rewrite E. cbn. exists (f j). destruct (Hf j) as (_&H1&H2&H3).
+    repeat split; congruence.
+  - exists j. auto.
 Qed.
 
-Lemma shutdown_jobs : forall l s, s_jobs (shutdown_loop l s) = s_jobs s.
+Lemma dropjobs_fin_le : forall js s, fin_le (s_jobs s) (s_jobs (dropjobs js s)).
 Proof.
-  induction l as [|[i w] r IH]; intro s; cbn [shutdown_loop]; [reflexivity|].
-  destruct (is_done (s_jobs s) w); [apply IH|]. rewrite IH. destruct (pushjob_jobs w (set_requeued (w :: s_requeued s) s)) as [H _].
-  rewrite H. reflexivity.
+  induction js as [|i r IH]; intro s; cbn [dropjobs]; [apply fin_le_refl|].
+  destruct (id_lookup (s_ids s) i) as [ser|]; [|apply IH].
+  eapply fin_le_trans; [|apply IH]. sf. apply setjob_fin_le. intro j. cbn. auto.
 Qed.
 
-Lemma die_jobs : forall c s, s_jobs (fst (die c s)) = s_jobs s.
-Proof. intros. unfold die. cbv zeta. cbn [fst]. rewrite shutdown_jobs. reflexivity. Qed.
-
-Lemma run_event_jobs : forall e s, s_jobs (fst (run_event e s)) = s_jobs s.
+Lemma dropdead_fin_le : forall l s, fin_le (s_jobs s) (s_jobs (dropdead_loop l s)).
 Proof.
-  intros e s. destruct e as [c|c|ser]; cbn [run_event].
-  - destruct (c_st (get_conn (s_conns s) c)) as [|chs [x|]|w|]; try reflexivity.
-    destruct (is_done (s_jobs s) x); [apply pop_jobs|apply deliver_jobs].
-  - destruct (c_st (get_conn (s_conns s) c)) as [|chs mb|w|]; try reflexivity; rewrite die_jobs; try reflexivity.
-    destruct mb as [x|]; [|reflexivity]. sf. destruct (is_done (s_jobs s) x); [reflexivity|].
-    destruct (pushjob_jobs x (set_waiters (remove_waiter c (s_waiters s)) s)) as [H _]. rewrite H. reflexivity.
-  - destruct (release ser (s_jobs s) (s_conns s)). reflexivity.
-Qed.
-
-Lemma run_events_jobs : forall es s, s_jobs (fst (run_events es s)) = s_jobs s.
-Proof.
-  induction es as [|e r IH]; intro s; cbn [run_events]; [reflexivity|].
-  pose proof (run_event_jobs e s) as H1. destruct (run_event e s) as [s1 o1]. cbn [fst] in H1.
-  specialize (IH s1). destruct (run_events r s1) as [s2 o2]. cbn [fst] in *. congruence.
+  induction l as [|i r IH]; intro s; cbn [dropdead_loop]; [apply fin_le_refl|].
+  destruct (id_lookup (s_ids s) i) as [ser|]; [|apply IH].
+  destruct (getjob (s_jobs s) ser) as [j|]; [|apply IH]. cbv zeta.
+  eapply fin_le_trans; [|apply IH].
+  destruct (match j_dl j with Some d => negb (d =? 0) && (d <? s_now s) | None => false end);
+    destruct (j_done j && negb (dl_truthy (j_dl j))); sf; try apply fin_le_refl;
+    apply setjob_fin_le; intro j0; cbn; auto.
 Qed.
 
 Lemma step_fin_le : forall s o, Inv s [] [] -> fin_le (s_jobs s) (s_jobs (fst (step s o))).
 Proof.
-  intros s o I. destruct o as [ch prio name tmo|c chs| |c i res e|c js|dt|c|k|c i|i|i v|]; cbn [step].
+  intros s o I. destruct o as [ch prio name tmo|c chs| |c i res e|c js|dt|c|k|c i|i|i v| |dt|js|]; cbn [step].
   - assert (F : forall j0, j_serial j0 = s_count s + 1 ->
                 fin_le (s_jobs s) (s_jobs (pushjob (s_count s + 1) (set_jobs (j0 :: s_jobs s) (set_count (s_count s + 1) s))))).
     { intros j0 Hs. destruct (pushjob_jobs (s_count s + 1) (set_jobs (j0 :: s_jobs s) (set_count (s_count s + 1) s))) as [H _].
@@ -199,27 +210,31 @@ Proof.
   - destruct (c_st (get_conn (s_conns s) c)); apply fin_le_refl.
   - apply fin_le_refl.
   - destruct (is_idle c s); [|apply fin_le_refl]. destruct (id_lookup (s_ids s) i) as [ser|]; [|apply fin_le_refl].
-    destruct (getjob (s_jobs s) ser) as [j|]; [|apply fin_le_refl]. destruct (j_done j && negb (done_pending ser (s_hub s))); apply fin_le_refl.
+    destruct (getjob (s_jobs s) ser) as [j|]; [|apply fin_le_refl]. destruct (j_done j && negb (done_pending ser (s_hub s))); [destruct (j_drop j)|]; apply fin_le_refl.
   - apply fin_le_refl.
   - destruct (id_lookup (s_ids s) i) as [ser|]; [|apply fin_le_refl]. cbn [fst]. sf. intros x j E D.
     rewrite getjob_setjob by (intros; cbn; assumption). destruct (x =? ser) eqn:Ex.
     + apply N.eqb_eq in Ex. subst x. rewrite E. cbn. eexists; split; [reflexivity|auto].
     + exists j. auto.
   - apply fin_le_refl.
+  - apply fin_le_refl.
+  - cbn [fst]. apply dropjobs_fin_le.
+  - cbn [fst]. apply dropdead_fin_le.
 Qed.
 
-Lemma run_fin_le : forall h2 s, Inv s [] [] -> fin_le (s_jobs s) (s_jobs (run h2 s)).
+Lemma run_fin_le : forall h2 s, nodrop h2 = true -> Aux s -> Inv s [] [] -> fin_le (s_jobs s) (s_jobs (run h2 s)).
 Proof.
-  induction h2 as [|o r IH]; intros s I; [apply fin_le_refl|].
+  induction h2 as [|o r IH]; intros s ND A I; [apply fin_le_refl|].
+  cbn [nodrop forallb] in ND. apply andb_true_iff in ND. destruct ND as [N1 N2].
   change (run (o :: r) s) with (run r (fst (step s o))).
-  eapply fin_le_trans; [apply step_fin_le; exact I|apply IH; apply step_inv; exact I].
+  eapply fin_le_trans; [apply step_fin_le; exact I|apply IH; [exact N2|apply step_aux; assumption|apply step_inv; assumption]].
 Qed.
 
-Lemma first_outcome_wins : forall h1 h2 x j,
+Lemma first_outcome_wins : forall h1 h2 x j, nodrop h1 = true -> nodrop h2 = true ->
   getjob (s_jobs (run h1 init)) x = Some j -> j_done j = true ->
   exists j', getjob (s_jobs (run h2 (run h1 init))) x = Some j' /\
              j_done j' = true /\ j_err j' = j_err j /\ j_res j' = j_res j.
-Proof. intros h1 h2 x j. apply run_fin_le. apply reachable_inv. Qed.
+Proof. intros h1 h2 x j N1 N2. apply run_fin_le; [exact N2|apply reachable_aux; exact N1|apply reachable_inv; exact N1]. Qed.
 
 (* ------------------------------------------------------------------ re-add, wait *)
 
@@ -241,9 +256,16 @@ Qed.
 
 Lemma wait_done_immediate : forall s c i ser j,
   is_idle c s = true -> id_lookup (s_ids s) i = Some ser -> getjob (s_jobs s) ser = Some j -> j_done j = true ->
-  done_pending ser (s_hub s) = false ->
+  done_pending ser (s_hub s) = false -> j_drop j = false ->
   step s (Wait c i) = (s, [OReleased c j]).
-Proof. intros s c i ser j EI El E D P. cbn [step]. rewrite EI, El, E, D, P. reflexivity. Qed.
+Proof. intros s c i ser j EI El E D P Dr. cbn [step]. rewrite EI, El, E, D, P, Dr. reflexivity. Qed.
+
+(* ... and with the drop flag the job is handed over one last time and its id is forgotten *)
+Lemma wait_done_dropped : forall s c i ser j,
+  is_idle c s = true -> id_lookup (s_ids s) i = Some ser -> getjob (s_jobs s) ser = Some j -> j_done j = true ->
+  done_pending ser (s_hub s) = false -> j_drop j = true ->
+  step s (Wait c i) = (set_ids (id_del (s_ids s) i) s, [OReleased c j]).
+Proof. intros s c i ser j EI El E D P Dr. cbn [step]. rewrite EI, El, E, D, P, Dr. reflexivity. Qed.
 
 Lemma wait_undone_blocks : forall s c i ser j,
   is_idle c s = true -> id_lookup (s_ids s) i = Some ser -> getjob (s_jobs s) ser = Some j -> j_done j = false ->
@@ -254,9 +276,7 @@ Proof.
 Qed.
 
 (* a client is released from a wait only with a finished job *)
-Lemma released_is_done : forall s ser o, 
-  In o (snd (run_event (EvDone ser) s)) -> exists c j, o = OReleased c j /\ getjob (s_jobs s) ser = Some j.
-Proof.
-  intros s ser o. cbn [run_event]. destruct (release ser (s_jobs s) (s_conns s)) as [cs o'] eqn:ER. cbn [snd]. intro H.
-  pose proof (release_out ser (s_jobs s) (s_conns s) o) as R. rewrite ER in R. exact (R H).
-Qed.
+Lemma released_is_done : forall s ser o,
+  In o (snd (run_event (EvDone ser) s)) ->
+  (exists c j, o = OReleased c j /\ getjob (s_jobs s) ser = Some j) \/ o = OKeyErr.
+Proof. exact evdone_out. Qed.
